@@ -470,8 +470,8 @@ def r5_entry_api(ctx):
         fn = F.fn(E + "Entry::" + name)
         expect(fn, "occupied", [ent("occupied")] + extra, occ_log, occ_ret)
         expect(fn, "vacant", [ent("vacant")] + extra, vac_log, vac_ret)
-    fn = F.fn(E + "Entry::new")
-    for kind in ("occupied", "vacant"):
+    fn = F.fn_opt(E + "Entry::new")      # crate-private: where it is written out at its one call site (`entry()`), C01.R2's placement scenarios decide the wrapping
+    for kind in (("occupied", "vacant") if fn is not None else ()):
         std_entry = Agg("adt", STD + "Entry", "Occupied" if kind == "occupied" else "Vacant", [Sym("std-" + kind)])
         expect(fn, kind, [std_entry], [], "Entry::%s(std-%s)" % ("Occupied" if kind == "occupied" else "Vacant", kind))
     home = 10000
